@@ -45,7 +45,7 @@ PROPS['C02'] = _board('C02', ['C02'],
     'every pseudo-legal move of generated positions with the full successor (14 piece words, 4 rotated words, rights, e.p.) and the origin re-dumped; attack/check queries on all 64 squares; 120-ply playouts ending in queries and movegen.',
     'Successor dumped from Go compared word for word with the model pos_move, checked against the representation invariant inv_b (all views agree), against the specification apply_move through the abstraction abs_pos, and for legality of the successor; origin position must be unchanged.')
 PROPS['C06'] = _board('C06', ['C06'],
-    'structured sweep: every square x every occupancy of each of its four lines (a third of the 128-state lines in the quick tier) with the rest empty, each again with one other square toggled; random occupancies of three densities; pawn boards on random pawn sets; check / checkmate / attacked-square queries on generated positions.',
+    'structured sweep: every square x every occupancy of each of its four lines (a third of the 128-state lines in the quick tier) with the rest empty, each again with one other square toggled; random occupancies of three densities; pawn boards on random pawn sets; check / checkmate / attacked-square queries on generated positions and on constructed checks by a slider with a free square behind the king on the checking line (back-rank mates, ladder mates under the eight board symmetries, sampled mates and one-escape positions; both sides; count slider-mates).',
     'Rook/Bishop/King/Knight attack boards and pawn capture boards of the implementation compared with the model (table lookup on the dumped tables) and with geometric ray walking (coq/Spec/Chess.v attacks_from); derived queries compared with the specification.')
 PROPS['C05'] = _board('C05', ['C05'],
     'board scripts (push / pop / fork / select / adjudicate with every getter observed after every operation) over 3 Zobrist seeds: scripted repetition (from the start position, after a capture, around castling, across a fork), fifty-move clocks 0/90/95/98/99/100 from FEN, insufficient-material endings by capture on random bishop squares and by under-promotion, mate/stalemate adjudication, random scripts and shuffle-heavy games.',
@@ -206,7 +206,7 @@ PROPS['C04'].update({
     'level_note': 'The transition system is hand-written from uci.go / engine.go / iterative.go; its tie to the code is the trace acceptor: real traces must be accepted by Driver.obs_ok, and obs_sound proves that the acceptor accepts every trace of the model (so a rejected real trace is behaviour outside the model); in addition two scripts are explored exhaustively (3289 / 7457 states); scheduling fairness and Go channel semantics are modelled, wall-clock timers are nondeterministic events. Legality with a transposition table is proved under HashValue (no hash collision between positions of different value), the precondition of C11; the quiescence versions carry the fuel-sufficiency hypothesis (LeavesUpTo), the static-leaf versions none. The step from the sequential model to the concurrent driver is the transition-system argument (the answer is the last completed iteration of the search that was launched for this go). Trusted: Coq kernel, extraction, harness.',
 })
 PROPS['C16'] = _board('C16', [],
-    'randomly timed command scripts (isready, stop, new position / go / ucinewgame during a search, junk and empty lines, quit and end of input while searching) against the real driver with the four bundled engine configurations, under the race detector; positions alternate the side to move so that an answer computed for a superseded search is recognisably illegal.',
+    'randomly timed command scripts (isready, stop, new position / go / ucinewgame during a search, junk and empty lines, quit and end of input while searching) against the real driver with the four bundled engine configurations, under the race detector; positions alternate the side to move so that an answer computed for a superseded search is recognisably illegal; a driver that closes its output although neither quit nor the end of input was sent is reported at once (driver-exit) and the monitors stop waiting for it.',
     'No panic, no data race, output closed within a timeout after quit / end of input, one readyok per isready, no bestmove that is illegal in the position last set up (stale), no duplicate answers.')
 PROPS['C16'].update({'stress': ['C16']})
 PROPS['C16'].update({
